@@ -357,6 +357,10 @@ class ClientGenerator:
             # --- End Refactored Diff Logic ---
         else:  # This is the force=True or first-run logic
             self._log_progress("Direct generation (force=True or first run)", "DIRECT_GEN")
+            # A core package that other clients share may live INSIDE this client's package (core_package =
+            # "<this client>.core"): its registry of the error codes every client needs must survive the clean-up
+            shared_registry = core_dir / ".exception_registry.json"
+            kept_registry = shared_registry.read_bytes() if out_dir in core_dir.parents and shared_registry.is_file() else None
             if out_dir.exists():
                 self._log_progress(f"Removing existing directory: {out_dir}", "CLEANUP")
                 shutil.rmtree(str(out_dir))
@@ -369,6 +373,8 @@ class ClientGenerator:
             if core_dir != out_dir:
                 core_dir.parent.mkdir(parents=True, exist_ok=True)
                 core_dir.mkdir(parents=True, exist_ok=True)  # Create final core dir
+            if kept_registry is not None:
+                shared_registry.write_bytes(kept_registry)
 
             # Write root __init__.py if needed (handle nested packages like a.b.c)
             self._log_progress("Creating __init__.py files for package structure", "INIT_FILES")
